@@ -284,14 +284,20 @@ func indepRestoreField(f FieldType, b []byte) uint64 {
 type TupleCodec struct {
 	Schema Schema
 	Lib    bool // compose the library's own encoders (else the independent ones)
+	// InPlace: (Lib only) the first field's encoding as returned by the library is
+	// the buffer the following fields are appended to, as hand-written codecs do
+	InPlace bool
 }
 
 func (c TupleCodec) Transform(t Tuple) ([]byte, []byte) {
 	var b []byte
 	for i, f := range c.Schema.Fields {
-		if c.Lib {
+		switch {
+		case c.Lib && c.InPlace && i == 0:
+			b = libField(f, t.N[i])
+		case c.Lib:
 			b = append(b, libField(f, t.N[i])...)
-		} else {
+		default:
 			b = append(b, indepField(f, t.N[i])...)
 		}
 	}
@@ -320,11 +326,18 @@ func (c TupleCodec) Restore(b []byte) Tuple {
 }
 
 // CompoundKind builds the adapter for one schema and codec variant.
-func CompoundKind(s Schema, lib bool) *Kind[Tuple] {
-	cd := TupleCodec{Schema: s, Lib: lib}
+func CompoundKind(s Schema, lib bool) *Kind[Tuple] { return CompoundKindV(s, lib, false) }
+
+// CompoundKindV: inPlace selects the library-composed codec that appends onto the
+// first field's encoding.
+func CompoundKindV(s Schema, lib, inPlace bool) *Kind[Tuple] {
+	cd := TupleCodec{Schema: s, Lib: lib, InPlace: lib && inPlace}
 	variant := "indep"
 	if lib {
 		variant = "lib"
+	}
+	if cd.InPlace {
+		variant = "lib-inplace"
 	}
 	canonT := func(t Tuple) Tuple {
 		var c Tuple
